@@ -455,7 +455,10 @@ func (g *gen) goodLine(depth int) gline {
 			}
 			inner := g.goodLine(1)
 			if g.chance(60) {
-				inner = g.badLine(1)
+				// the whole line is tokenized before any guard is looked at: a guard cannot
+				// protect an unterminated quote
+				for inner = g.badLine(1); inner.tag == "bad-unterminated-quote"; inner = g.badLine(1) {
+				}
 			}
 			if g.chance(15) {
 				inner = gline{text: g.pick([]string{"stop", "skip", "skip msg"})}
